@@ -58,15 +58,27 @@ COMPONENTS = {
 }
 
 ASSUMPTIONS = {
-    'C01': ['operand values are finite O(1) numbers; scalars from {0, 1, -1, '
-            'generic in [1e-3, 1e3], generic complex}; integer spaces get '
-            'integer scalars and no division',
+    'C01': ['operand values are O(1) numbers, in 12% of the runs on real '
+            'floating dtypes with one to three +-inf/NaN entries (IEEE model; '
+            'a term with an exactly zero scalar may be dropped and x1 is x2 '
+            'may be evaluated as (a+b)*x1, as the other size regimes do); '
+            'scalars from {0, 1, -1, generic in [1e-3, 1e3], generic '
+            'complex}; integer spaces get integer scalars and no division',
+            'dtypes float64/32, complex128/64, float16, int64/32/16 and '
+            'byte-swapped >f8 >f4 >i4 (no longdouble: padding bytes defeat '
+            'bitwise comparison); for float16 the quotient operand/scalar of '
+            'odl\'s copy-free axpy has to stay below the dtype maximum',
+            'every array handed to odl is carved out of a larger zeroed '
+            'block (guard zones): NumPy inner-loop selection depends on what '
+            'lies one stride behind a strided operand',
             'tolerance 16*eps*entrywise magnitude bound per operation; model '
             'resynchronised to the actual buffers after every operation',
             'aliasing = object identity (and same-index shared parts of '
             'product-space containers), not arbitrary memory overlap',
             'a clean batch is evidence, not proof'],
-    'C17': ['numbers are compared bit-for-bit with NumPy on the model arrays',
+    'C17': ['numbers are compared bit-for-bit with NumPy on model arrays of '
+            'identical strides, both inside guard zones (NumPy loop selection '
+            'is stride and address dependent)',
             'weight propagation of reduced spaces is not judged',
             'a clean batch is evidence, not proof'],
 }
